@@ -147,6 +147,10 @@ pub trait DynP<T: Sc>: Send {
     fn weights_str(&self) -> String;
     fn fit(self: Box<Self>, lm: LevenbergMarquardt<T>) -> FitOut<T>;
     fn fit_stats(self: Box<Self>, lm: LevenbergMarquardt<T>) -> StatsOut<T>;
+    /// ONE `LevMarSolver` value is used for two consecutive `fit_with_statistics` calls: first on
+    /// `first` (same flavour, result discarded), then on `self` (result returned)
+    fn fit_stats_after(self: Box<Self>, first: Box<dyn DynP<T>>, lm: LevenbergMarquardt<T>) -> StatsOut<T>;
+    fn into_any(self: Box<Self>) -> Box<dyn std::any::Any>;
     fn minimize_raw(self: Box<Self>, lm: LevenbergMarquardt<T>) -> (Box<dyn DynP<T>>, String, usize, T);
     fn to_seq(self: Box<Self>) -> Box<dyn DynP<T>>;
 }
@@ -223,6 +227,12 @@ macro_rules! impl_dynp {
             fn fit_stats(self: Box<Self>, lm: LevenbergMarquardt<T>) -> StatsOut<T> {
                 impl_dynp!(@stats $mrhs, self, lm)
             }
+            fn fit_stats_after(self: Box<Self>, first: Box<dyn DynP<T>>, lm: LevenbergMarquardt<T>) -> StatsOut<T> {
+                impl_dynp!(@statsafter $mrhs, self, first, lm)
+            }
+            fn into_any(self: Box<Self>) -> Box<dyn std::any::Any> {
+                self
+            }
             fn minimize_raw(self: Box<Self>, lm: LevenbergMarquardt<T>) -> (Box<dyn DynP<T>>, String, usize, T) {
                 #[allow(deprecated)]
                 let (p, rep) = lm.minimize(*self);
@@ -261,6 +271,37 @@ macro_rules! impl_dynp {
                 }
             }
         }
+    }};
+    (@statsafter false, $self:ident, $first:ident, $lm:ident) => {{
+        let solver = LevMarSolver::<WM<T>, false>::with_solver($lm);
+        if let Ok(f) = $first.into_any().downcast::<Self>() {
+            let _ = solver.fit_with_statistics(*f);
+        }
+        match solver.fit_with_statistics(*$self) {
+            Ok((r, st)) => {
+                let calls = r.problem.model().probe.count();
+                let c = r.linear_coefficients().map(|c| view_to_mat(&c));
+                let b = r.best_fit().map(|c| view_to_mat(&c));
+                let vals = stat_vals(st);
+                StatsOut {
+                    fit: fit_out(true, r, c, b, calls),
+                    stats: Some(vals),
+                }
+            }
+            Err(r) => {
+                let calls = r.problem.model().probe.count();
+                let c = r.linear_coefficients().map(|c| view_to_mat(&c));
+                let b = r.best_fit().map(|c| view_to_mat(&c));
+                StatsOut {
+                    fit: fit_out(false, r, c, b, calls),
+                    stats: None,
+                }
+            }
+        }
+    }};
+    (@statsafter true, $self:ident, $first:ident, $lm:ident) => {{
+        let _ = ($first, $lm);
+        panic!("fit_with_statistics is not available for multiple right hand sides")
     }};
     (@stats true, $self:ident, $lm:ident) => {{
         let _ = $lm;
